@@ -185,7 +185,13 @@ def coq_case(c, r):
     else:
         model = "fem_newton %s %s %d %d %s" % (ext(atol), ext(rtol), miter, c.get("max_linesearch", 10), obs)
     if r["outcome"] == "return":
-        return "outcome_eqb (%s) (Ret %d (%s %d%%nat))" % (model, r["calls"], obs, r["calls"] - 1)
+        pos = ""
+        if loop == "newton" and "x" in r:
+            # the iterate handed back: every direction of the scripted run is the unit step
+            pos = " && Qeq_bool (newton_x %s %s %d %s %d %s 0) %s" % (
+                ext(atol), ext(rtol), miter, coq_bool(c.get("linesearch", True)), c.get("max_search", 10), obs,
+                q_lit(F(float.fromhex(r["x"]))))
+        return "outcome_eqb (%s) (Ret %d (%s %d%%nat))%s" % (model, r["calls"], obs, r["calls"] - 1, pos)
     return "outcome_eqb (%s) (Raise %d)" % (model, r["calls"])
 
 
